@@ -46,7 +46,7 @@ WellFormedQ(hdr) == hdr = "" \/ \A i \in 1..Len(AcceptRanges(hdr)) : AcceptRange
 \* ---------- Layer B: mime.go sortedMimes / insertMime ----------
 \* TrimsAndScansParams = TRUE models the repaired parser (media type and q value trimmed, q
 \* looked up among all parameters); FALSE is the legacy parser (counter-model)
-CONSTANT TrimsAndScansParams
+CONSTANTS TrimsAndScansParams, ProducesFirst
 
 RECURSIVE InsertMime(_, _, _)
 InsertMime(l, e, i) ==
@@ -96,13 +96,17 @@ ImplWalk(produces, registered, sorted, i) ==
           ELSE ImplWalk(produces, registered, sorted, i + 1)
 
 ImplChoice(produces, registered, hdr, default) ==
-  \* response.go: a missing Accept header is walked as "*/*" (repair 2f.. of this work)
-  LET w == ImplWalk(produces, registered, SortedMimes(IF hdr = "" THEN "*/*" ELSE hdr), 1) IN
-  IF w # {} THEN w
-  ELSE LET direct == AccessorAt(registered, hdr) IN
-       IF direct # {} THEN direct
-       ELSE IF default \in {"application/json", "application/xml"} /\ AccessorAt(registered, default) # {}
-            THEN AccessorAt(registered, default)
-       ELSE LET ix == {j \in 1..Len(produces) : AccessorAt(registered, produces[j]) # {}} IN
-            IF ix = {} THEN {""} ELSE AccessorAt(registered, produces[CHOOSE j \in ix : \A k \in ix : j <= k])
+  \* response.go: a missing Accept header is walked as "*/*" (a repair of this work).  When the walk finds nothing:
+  \* ProducesFirst = TRUE (another repair): the first Produces entry that has a writer, and only for a Response without
+  \* Produces the look-up of the whole header (exact, else ANY registered key it contains) and the package default;
+  \* FALSE (before): header look-up, then the default, then Produces - which writes types the route does not produce.
+  LET w == ImplWalk(produces, registered, SortedMimes(IF hdr = "" THEN "*/*" ELSE hdr), 1)
+      ix == {j \in 1..Len(produces) : AccessorAt(registered, produces[j]) # {}}
+      firstProd == IF ix = {} THEN {} ELSE AccessorAt(registered, produces[CHOOSE j \in ix : \A k \in ix : j <= k])
+      direct == AccessorAt(registered, hdr)
+      dflt == IF default \in {"application/json", "application/xml"} THEN AccessorAt(registered, default) ELSE {}
+  IN IF w # {} THEN w
+     ELSE IF ProducesFirst
+          THEN (IF firstProd # {} THEN firstProd ELSE IF direct # {} THEN direct ELSE IF dflt # {} THEN dflt ELSE {""})
+          ELSE (IF direct # {} THEN direct ELSE IF dflt # {} THEN dflt ELSE IF firstProd # {} THEN firstProd ELSE {""})
 =============================================================================
